@@ -1,10 +1,71 @@
+"""C20 - column-store sparse (primary key) and skip indexes never prune a block with a match.
+
+In-package overlay harness in engine/index/sparseindex (hooks/engine/index/sparseindex/c20_test.go).
+Custom run(): same flow as checklib.run_gotest_check, but distinct_nontrivial is taken from the workers'
+exact counter `nontrivial_cases` (every (record, layout, condition, time range) is generated exactly once by
+the odometer, so the count of non-trivial cases IS the number of distinct non-trivial cases; hashing 10^7..10^9
+of them into a set would cost gigabytes). The hash set the kit merges is kept as
+`distinct_nontrivial_conditions` (distinct (schema, layout, condition) seen in a sampled non-trivial case).
+"""
+import os, shutil, time
+
+import checklib as cl
+
 SPEC = dict(
     pkg="engine/index/sparseindex",
     test="TestVerifC20",
     level="exploration",
     workers=16,
-    deadline={"quick": 200, "thorough": 2000},
-    rule="todo",
-    assumptions=[],
+    # sized in CPU time: quick needs about 12 CPU-minutes (45..60 s wall on 16 free cores); the deadline only
+    # protects against a heavily shared machine and ends the run with exhaustive:false, never with a verdict
+    deadline={"quick": 600, "thorough": 3000},
+    rule="a case = (sorted key record, fragment layout, condition tree, time range); it is non-trivial iff the real "
+         "index reader pruned at least one fragment/block AND at least one row satisfies the condition (brute force). "
+         "distinct_nontrivial = number of such cases (each case is generated exactly once by the odometer; reader "
+         "settings are not counted as separate cases); coverage.distinct_nontrivial_conditions = distinct "
+         "(schema, layout, condition) among sampled non-trivial cases",
+    assumptions=[
+        "rows are in the order the column-store writer's sorter (lib/record SortData / Pad*Slice) produces: nulls first "
+        "(boolean null ties with false); the harness enumerates every record that is non-decreasing under that order",
+        "row semantics of the oracle: a comparison with null is false for every operator (this is what "
+        "lib/binaryfilterfunc does); MATCHPHRASE on the bloom-filter column is decided by the row filter's own "
+        "tokenizer.SimpleTokenFinder",
+        "literals have the type of the column they are compared with",
+        "the non-key column v takes the value 1 + (row number mod 2); no index ever sees it",
+        "min-max index: the repository has no writer; the index record is laid out as MinMaxIndexReader indexes it "
+        "(row k lower bound, row k+1 upper bound of fragment k); set index: reader only (no writer exists)",
+        "an error or a panic of the reader is not a pruning decision and is counted, not reported",
+    ],
 )
+
+
+def run(tier, replay):
+    cid = "C20"
+    if replay:
+        return cl.run_gotest_check(cid, tier, SPEC, replay)
+    t0 = time.time()
+    ov = cl.gen_overlay(cid, [SPEC["pkg"]])
+    binp = cl.go_test_build(cid, SPEC["pkg"], ov)
+    scratch = cl.scratch_root(cid)
+    try:
+        dl = int(os.environ.get("VERIF_DEADLINE_S", SPEC["deadline"][tier]))
+        reps = cl.run_workers(cid, binp, SPEC["test"], tier, SPEC["workers"], dl, scratch)
+        nontrivial = sum((r.get("counters") or {}).get("nontrivial_cases", 0) for r in reps)
+        hashed = set()
+        for r in reps:
+            hashed |= r.get("_distinct", set())
+        extra = {"distinct_nontrivial": nontrivial, "distinct_nontrivial_conditions": len(hashed)}
+        return cl.finish(cid, tier, SPEC["level"], SPEC["rule"], reps, t0, SPEC["assumptions"], extra_cov=extra)
+    finally:
+        shutil.rmtree(scratch, ignore_errors=True)
+
+
 CLAIMED = False
+MANIFEST = dict(
+    level="exploration",
+    engine="enumx",
+    technique="bounded exhaustive enumeration (odometer) of sorted key records x fragment layouts x condition trees x reader "
+              "settings on the real index writer/readers, brute-force row oracle (soundness of pruning only)",
+    text="todo",
+    note="todo",
+)
